@@ -103,24 +103,16 @@ theorem C05_retry_requeue (cfg : Cfg) (pol : Policy) (step : Nat) (tickEv : Ev) 
     (applyRes cfg pol step tickEv dc acc (.failed exc failedAt)).cmds = acc.cmds ++
       [.queueEvent { ev := tickEv, attempts := some (acc.exec.attempts + 1), firstAt := some acc.exec.firstAt,
                      lastExc := some exc, lastFailedAt := some failedAt, rc := acc.exec.rc } (some step) (some d)] := by
-  simp [applyRes, hc, hretry, hp]
+  simp [applyRes, retryDecision, hc, hretry, hp]
 
 /-- a step without a retry policy, or whose policy gives up, is not retried: with no
 handler the run fails and the failure event reports `attempts + 1` and the elapsed time -/
 theorem C05_failure_report (cfg : Cfg) (pol : Policy) (step : Nat) (tickEv : Ev) (dc : Bool) (acc : ResAcc)
-    (exc : Nat) (failedAt : Int) (hnoh : lookup cfg.handlerFor step = none)
-    (hp : (match cfg.find step with | some c => c.hasRetry | none => false) = true →
-      pol step (failedAt - acc.exec.firstAt) (acc.exec.attempts + 1) exc = .stop) :
+    (exc : Nat) (failedAt : Int) (hnoh : handlerOwner cfg step = none)
+    (hp : retryDecision cfg pol step (failedAt - acc.exec.firstAt) (acc.exec.attempts + 1) exc = .stop) :
     (applyRes cfg pol step tickEv dc acc (.failed exc failedAt)).cmds = acc.cmds ++
       [.publish (.failed step exc (acc.exec.attempts + 1) (failedAt - acc.exec.firstAt)), .failWorkflow step exc] := by
-  cases hf : cfg.find step with
-  | none => simp [applyRes, hf, hnoh]
-  | some c =>
-    cases hr : c.hasRetry with
-    | false => simp [applyRes, hf, hr, hnoh]
-    | true =>
-      have := hp (by simp [hf, hr])
-      simp [applyRes, hf, hr, this, hnoh]
+  simp [applyRes, hp, hnoh]
 
 /-- a re-queued retry, once started, runs with `retry_number = attempts`, the original
 `first_attempt_at` and the previous exception -/
